@@ -1,6 +1,7 @@
 package worldc
 
 import (
+	"bytes"
 	"crypto/rand"
 	"encoding/base32"
 	"encoding/json"
@@ -9,6 +10,8 @@ import (
 	"log/slog"
 	"net"
 	"os"
+	"runtime"
+	"sort"
 	"strings"
 	"testing"
 	"testing/synctest"
@@ -464,8 +467,25 @@ func shapeOK(path string, body []byte) string {
 }
 
 func (w *world) judge(cc *clientConn, s *sent, resp *response) {
-	w.logf("conn %d %s %s [%s/%s] -> %d %s", cc.id, s.method, s.path, s.role, s.req.Class, resp.status, clipB(resp.body, 160))
 	ep, _, _ := strings.Cut(s.path, "?")
+	if w.logOn {
+		shown := string(clipB(resp.body, 160))
+		if bytes.HasPrefix(resp.body, []byte(`{"suites":[`)) {
+			// map-ordered in the library: log as a sorted set
+			var l struct {
+				Suites []string `json:"suites"`
+			}
+			_ = json.Unmarshal(resp.body, &l)
+			sort.Strings(l.Suites)
+			shown = fmt.Sprintf("suites(sorted,%d) %s", len(l.Suites), verifhHash(l.Suites))
+		}
+		if ep == "/otp/secret" && !s.seq && is2xx(resp.status) {
+			// parallel handlers share the random stream: which bytes each one gets is
+			// the one thing the plan does not determine (checked for conservation only)
+			shown = fmt.Sprintf("secret(parallel) len=%d", len(resp.body))
+		}
+		w.logf("conn %d %s %s [%s/%s] -> %d %s", cc.id, s.method, s.path, s.role, s.req.Class, resp.status, shown)
+	}
 	verifh.Distinct(verifh.Hash64("C", ep, s.method, s.req.Class, s.req.Expect, resp.status, cc.requests > 1, s.role, fieldMask(s.body), s.exp.Judge, s.exp.Want2xx, s.exp.Either))
 	if is2xx(resp.status) {
 		var g genResp
@@ -531,6 +551,8 @@ func (w *world) judge(cc *clientConn, s *sent, resp *response) {
 		}
 	}
 }
+
+func verifhHash(l []string) string { return fmt.Sprintf("%x", verifh.Hash64(strings.Join(l, "\n"))) }
 
 func fieldMask(body []byte) string {
 	var m map[string]json.RawMessage
@@ -783,8 +805,10 @@ func (w *world) run() {
 			}
 			time.Sleep(time.Duration(ev.SleepMs) * time.Millisecond)
 			synctest.Wait()
-			for _, cc := range w.slots {
-				w.harvest(cc)
+			for _, cc := range w.all { // slice order, never map order
+				if !cc.closed {
+					w.harvest(cc)
+				}
 			}
 		case "close":
 			if cc := w.slots[ev.Conn]; cc != nil && !cc.closed {
@@ -958,6 +982,11 @@ func Run(t *testing.T, p *Plan, logOn bool) (v *verifh.Violation, info *runInfo)
 		w.pendingPath = fp + ".pending"
 	}
 	info = &runInfo{}
+	// every run starts from empty sync.Pools (two collections clear the victim
+	// cache too): with one P the pool contents are then a function of this
+	// run's own history, so a violation that needs pooled state replays
+	runtime.GC()
+	runtime.GC()
 	func() {
 		defer func() {
 			if r := recover(); r != nil {
